@@ -48,6 +48,20 @@ func ConstraintErrorAddPathSegment(err error, pathSegment string) error {
 	return err
 }
 
+// conversionError makes sure that an error from converting raw data to the native type is a ConstraintError.
+// Containers only prepend their path segment to constraint errors, so a plain error from a leaf would lose
+// the whole path to the offending value.
+func conversionError(err error) error {
+	var c *ConstraintError
+	if err == nil || errors.As(err, &c) {
+		return err
+	}
+	return &ConstraintError{
+		Message: "Cannot convert the value to the expected type",
+		Cause:   err,
+	}
+}
+
 // NoSuchStepError indicates that the given step is not supported by the plugin.
 type NoSuchStepError struct {
 	Step string
